@@ -7,6 +7,7 @@ from sa.absint import Evaluator, all_effects
 from sa.callgraph import CallGraph
 from sa.index import AnalysisError, walk_no_nested
 from sa.schema import TypeRef
+from rules.setuse import parents_of
 from sa.terms import App, Const, Ref, Sym, cases, contains, dict_pairs, subterms
 from . import c02
 
@@ -95,11 +96,44 @@ def key_agreement(ctx):
     # SuitKeyValueUnnamed: key rendered with json.dumps when not text, read back with json.loads first
     kf = repo.func(COMMON, "SuitKeyValueUnnamed.from_cbor")
     ko = repo.func(COMMON, "SuitKeyValueUnnamed.from_obj")
-    ks, os_ = ast.unparse(kf.node), ast.unparse(ko.node)
-    R.check("C03-D1b inverse conversions of the generic nodes", "dict_key = json.dumps(dict_key)" in ks and "if not isinstance(dict_key, str)" in ks
-            and "c_k.from_obj(json.loads(k))" in os_ and "key = c_k.from_obj(k)" in os_, "structured map keys: json.dumps <-> json.loads with plain-text fallback",
-            mod=kf.module, node=kf.node, function=ctx.fq(kf), expected="non-text keys rendered with json.dumps and re-read with json.loads",
-            found="pairing not recognised")
+    def ext_calls(fi_, dotted):
+        return [n for n in ast.walk(fi_.node) if isinstance(n, ast.Call) and (lambda r: r and r[0] == "ext" and r[1] == dotted)(repo.resolve_expr(fi_.module, n.func))]
+    par_f, par_o = parents_of(kf.node), parents_of(ko.node)
+    dumps_ok = False
+    for c in ext_calls(kf, "json.dumps"):
+        # rendered only when the key's description is not text: guarded by a (negated) isinstance(<the same expression>, str)
+        arg = ast.dump(c.args[0]) if c.args else None
+        p_ = par_f.get(c)
+        while p_ is not None and not isinstance(p_, ast.If):
+            p_ = par_f.get(p_)
+        if p_ is not None and arg:
+            t_ = p_.test
+            neg = isinstance(t_, ast.UnaryOp) and isinstance(t_.op, ast.Not)
+            core = t_.operand if neg else t_
+            in_body = any(c is x for st_ in p_.body for x in ast.walk(st_))
+            if isinstance(core, ast.Call) and isinstance(core.func, ast.Name) and core.func.id == "isinstance" and len(core.args) == 2 \
+                    and ast.dump(core.args[0]) == arg and isinstance(core.args[1], ast.Name) and core.args[1].id == "str" and (neg == in_body):
+                dumps_ok = True
+    loads_ok = False
+    for c in ext_calls(ko, "json.loads"):
+        # X.from_obj(json.loads(k)) inside a try whose ValueError handler falls back to X.from_obj(k) with the plain text
+        outer = par_o.get(c)
+        if not (isinstance(outer, ast.Call) and isinstance(outer.func, ast.Attribute) and outer.func.attr == "from_obj" and c in outer.args and c.args):
+            continue
+        t_ = par_o.get(outer)
+        while t_ is not None and not isinstance(t_, ast.Try):
+            t_ = par_o.get(t_)
+        if t_ is None:
+            continue
+        karg = ast.dump(c.args[0])
+        for h in t_.handlers:
+            for x in ast.walk(h):
+                if isinstance(x, ast.Call) and isinstance(x.func, ast.Attribute) and x.func.attr == "from_obj" and len(x.args) == 1 \
+                        and ast.dump(x.args[0]) == karg and ast.dump(x.func.value) == ast.dump(outer.func.value):
+                    loads_ok = True
+    R.check("C03-D1b inverse conversions of the generic nodes", dumps_ok and loads_ok, "structured map keys: json.dumps <-> json.loads with plain-text fallback",
+            mod=kf.module, node=kf.node, function=ctx.fq(kf), expected="non-text keys rendered with json.dumps and re-read with json.loads, text keys as they are",
+            found=f"json.dumps under a not-text guard: {dumps_ok}; json.loads with plain fallback: {loads_ok}")
     tu = repo.func(COMMON, "SuitKeyValueUnnamed.to_obj")
     uo = [o for o in ev.outcomes(tu) if o.kind == "return"]
     ok = len(uo) == 1 and isinstance(uo[0].value, App) and uo[0].value.op == "comp:dict" and "meth:items" in repr(uo[0].value.args[1]) \
@@ -109,16 +143,51 @@ def key_agreement(ctx):
     # SuitTupleNamed: star expansion
     tt = repo.func(COMMON, "SuitTupleNamed.to_obj")
     ft = repo.func(COMMON, "SuitTupleNamed.from_obj")
-    tsrc, fsrc = ast.unparse(tt.node), ast.unparse(ft.node)
-    R.check("C03-D1b inverse conversions of the generic nodes", "replace('*', str(multiple_elements_index))" in tsrc and "i.startswith(k.replace('*', ''))" in fsrc
-            and "value[key] = v.to_obj()" in tsrc, "repeated tuple element: name<N> emitted, names with that prefix collected in order", mod=tt.module,
-            node=tt.node, function=ctx.fq(tt), expected="key.replace('*', str(n)) <-> startswith(key without '*')", found="pairing not recognised")
+    touts = [o for o in ev.outcomes(tt) if o.kind == "return"]
+    fouts_ = [o for o in ev.outcomes(ft) if o.kind == "return"]
+    V = App("attr:value", (P("self"),))
+    star_store = False
+    for o in touts:
+        for e in all_effects(o.effects):
+            if isinstance(e, App) and e.op == "eff:store" and e.args[2] == App("meth:to_obj", (App("elem", (V,)),)):
+                for s_ in subterms(e.args[1]):
+                    # name<N>: '*' replaced by str(<a counter that changes per repeated element>)
+                    if isinstance(s_, App) and s_.op == "meth:replace" and len(s_.args) == 3 and s_.args[1] == Const("*") \
+                            and isinstance(s_.args[2], App) and s_.args[2].op in ("str", "call:str") \
+                            and contains(s_.args[2], lambda u: isinstance(u, App) and u.op == "loopvar"):
+                        star_store = True
+    prefix_sel = any(isinstance(s_, App) and s_.op == "meth:startswith" and isinstance(s_.args[1], App) and s_.args[1].op == "meth:replace"
+                     and s_.args[1].args[1:] == (Const("*"), Const("")) for o in fouts_ for t_ in [o.value] + list(all_effects(o.effects)) for s_ in subterms(t_))
+    R.check("C03-D1b inverse conversions of the generic nodes", star_store and prefix_sel,
+            "repeated tuple element: name<N> emitted, names with that prefix collected in order", mod=tt.module, node=tt.node, function=ctx.fq(tt),
+            expected="key.replace('*', str(running counter)) <-> startswith(key without '*')",
+            found=f"numbered by a per-element counter: {star_store}; collected by prefix: {prefix_sel}")
     # SuitList / SuitBitfield / SuitUnion renderers keep every element
-    for q, want in (("SuitList.to_obj", "[v.to_obj() for v in self.value]"), ("SuitBitfield.to_obj", "for bit in self.value"),
-                    ("SuitUnion.to_obj", "self.value.to_obj()")):
+
+    def renders_all(o):
+        v = o.value
+        el = App("meth:to_obj", (App("elem", (V,)),))
+        if isinstance(v, App) and v.op == "comp:list" and v.args[0] == el and v.args[1] == V and v.args[2] == App("conds", ()):
+            return True
+        if isinstance(v, App) and v.op == "loopout":
+            loops = [e for e in o.effects if isinstance(e, App) and e.op == "eff:loop" and e.args[0] == V]
+            for lp in loops:
+                body = list(lp.args[1].args)
+                if any(isinstance(b_, App) and b_.op == "eff:call" and isinstance(b_.args[0], App) and b_.args[0].op == "meth:append" and b_.args[0].args[1] == el
+                       for b_ in body) and not any(isinstance(b_, App) and b_.op in ("eff:if", "eff:alts", "eff:assume") for b_ in body):
+                    return True
+        return False
+    for q in ("SuitList.to_obj", "SuitBitfield.to_obj"):
         f = repo.func(COMMON, q)
-        R.check("C03-D1b inverse conversions of the generic nodes", want in ast.unparse(f.node), f"{q} renders every element", mod=f.module, node=f.node,
-                function=ctx.fq(f), expected=want, found="shape not recognised", key_extra=q)
+        o_ = [o for o in ev.outcomes(f) if o.kind == "return"]
+        R.check("C03-D1b inverse conversions of the generic nodes", len(o_) == 1 and renders_all(o_[0]), f"{q} renders every element", mod=f.module, node=f.node,
+                function=ctx.fq(f), expected="[v.to_obj() for v in self.value] (no filter)", found=repr(o_[0].value)[:160] if o_ else "no outcome", key_extra=q)
+    f = repo.func(COMMON, "SuitUnion.to_obj")
+    o_ = [o for o in ev.outcomes(f) if o.kind == "return"]
+    alts_ = {t for o in o_ for g_, t in cases(o.value)}
+    R.check("C03-D1b inverse conversions of the generic nodes", bool(alts_) and alts_ <= {V, App("meth:to_obj", (V,))} and App("meth:to_obj", (V,)) in alts_,
+            "SuitUnion.to_obj renders every element", mod=f.module, node=f.node, function=ctx.fq(f), expected="self.value.to_obj()",
+            found=f"{[repr(a_)[:80] for a_ in alts_]}", key_extra="SuitUnion.to_obj")
     # no slicing / truncation / case change in any to_obj of the schema
     R.rule("C03-D1c renderers do not truncate", 10, "no to_obj slices, truncates or changes case")
     for ci in sorted(S.reachable(), key=lambda c: c.fq):
@@ -440,15 +509,35 @@ def union_order(ctx):
 
     go(ref["root"], cur["root"], "")
     # decode order of the generic union node: first alternative that does not raise ValueError
-    fu = ctx.repo.func(COMMON, "SuitUnion.from_cbor")
-    src = ast.unparse(fu.node)
     R.rule("C03-D3b union decoding rule", 2, "alternatives are tried in metadata order; the first that does not raise ValueError wins, on both entry points")
-    R.check("C03-D3b union decoding rule", "for child in cls._metadata.children" in src and "except ValueError" in src and "break" in src, "SuitUnion.from_cbor",
-            mod=fu.module, node=fu.node, function=ctx.fq(fu), expected="for child in children: try … break except ValueError", found="not recognised")
-    fo = ctx.repo.func(COMMON, "SuitUnion.from_obj")
-    src = ast.unparse(fo.node)
-    R.check("C03-D3b union decoding rule", "for c in cls._metadata.children" in src and "except ValueError" in src and "break" in src, "SuitUnion.from_obj",
-            mod=fo.module, node=fo.node, function=ctx.fq(fo), expected="same order on the description side", found="not recognised")
+
+    def first_match_loop(fi_, method):
+        """for X in cls._metadata.children (plain, in order): try: <use of X.method(<the parameter>)>; break  except ValueError: go on"""
+        params = [a_.arg for a_ in fi_.node.args.args]
+        data = params[1] if len(params) > 1 else None
+        for lp in [n for n in ast.walk(fi_.node) if isinstance(n, ast.For)]:
+            it = lp.iter
+            if not (isinstance(it, ast.Attribute) and it.attr == "children" and isinstance(it.value, ast.Attribute) and it.value.attr == "_metadata"
+                    and isinstance(it.value.value, ast.Name) and it.value.value.id in ("cls", "self")):
+                continue
+            if not isinstance(lp.target, ast.Name):
+                continue
+            x = lp.target.id
+            for tr in [n for n in lp.body if isinstance(n, ast.Try)]:
+                calls = [c for st_ in tr.body for c in ast.walk(st_) if isinstance(c, ast.Call) and isinstance(c.func, ast.Attribute) and c.func.attr == method
+                         and isinstance(c.func.value, ast.Name) and c.func.value.id == x and len(c.args) == 1 and isinstance(c.args[0], ast.Name) and c.args[0].id == data]
+                brk = any(isinstance(st_, ast.Break) for st_ in tr.body + tr.orelse)
+                hs = tr.handlers
+                only_value_error = bool(hs) and all(h.type is not None and {ast.unparse(t_) for t_ in (h.type.elts if isinstance(h.type, ast.Tuple) else [h.type])} == {"ValueError"}
+                                                    and not any(isinstance(z, (ast.Raise, ast.Return, ast.Break)) for z in ast.walk(h)) for h in hs)
+                if calls and brk and only_value_error:
+                    return True
+        return False
+    for q, meth in (("SuitUnion.from_cbor", "from_cbor"), ("SuitUnion.from_obj", "from_obj")):
+        fu = ctx.repo.func(COMMON, q)
+        R.check("C03-D3b union decoding rule", first_match_loop(fu, meth), q, mod=fu.module, node=fu.node, function=ctx.fq(fu),
+                expected="for child in cls._metadata.children: try: child.%s(data); break  except ValueError: next alternative" % meth,
+                found="first-match loop over the alternatives in metadata order not recognised")
 
 
 # ---------------------------------------------------------------------------------------------- D4
